@@ -484,13 +484,37 @@ class MultiWcs(_TileStage):
 # ---------------------------------------------------------------------------------------
 
 
+def _private_seam_present(cfg):
+    """W=1 configurations force the parallel implementation through non-public entry points; if a
+    refactoring removed them the configuration is skipped (and counted), never reported."""
+    if getattr(cfg, "W", 2) != 1:
+        return True
+    from toasty import pyramid, transform, multi_tan, multi_wcs
+
+    need = {
+        "visit_leaves": (pyramid.Pyramid, "_visit_leaves_parallel"),
+        "walk": (pyramid.Pyramid, "_walk_parallel"),
+        "transform": (transform, "_transform_parallel"),
+        "multi_tan": (multi_tan.MultiTanProcessor, "_tile_parallel"),
+        "multi_wcs": (multi_wcs.MultiWcsProcessor, "_tile_parallel"),
+    }.get(cfg.stage)
+    return need is None or hasattr(need[0], need[1])
+
+
 def explore_to_part(cfg, prop, max_wall=None):
     part = Part()
-    pre = []
+    if not _private_seam_present(cfg):
+        part.count("configurations_skipped_private_api_absent")
+        part.notes.append("%s: skipped, non-public entry point absent" % cfg.name)
+        return part
     if hasattr(cfg, "serial_vs_ref"):
         msg = cfg.serial_vs_ref()
         if msg:
             part.violation("%s/serial-set-differs-from-reference" % cfg.stage, msg, {"config": cfg.describe()})
+    if max_wall is None:
+        # a wall-clock budget per configuration: if it is hit the run is reported as not exhaustive
+        # (never as a violation) - e.g. when a refactoring of toasty makes state keys stop converging
+        max_wall = getattr(cfg, "max_wall", None) or (5400 if os.environ.get("VERIF_TIER_EFFECTIVE") == "thorough" else 1200)
     res = explore(cfg, max_states=cfg.max_states, seed=cfg.seed, max_wall=max_wall)
     part.states += res.states
     part.transitions += res.transitions
